@@ -71,6 +71,48 @@ def rule_views(ctx):
                             ctx.bad("LF.VIEWS", "%s.%s#cache(%s)" % (LF, m, t.attr), fi, sub,
                                     "LASFile.%s is assigned from curve data in %s: a cached copy of curve state goes stale when "
                                     "curves are edited, so views stop agreeing with the list model" % (t.attr, m))
+    # instance state beyond today's (sections, index_unit, encoding, index_initial) that a view or a mutator reads is a second
+    # copy of curve state (a position table, a stacked-data cache ...): it can disagree with the list after an edit
+    KNOWN = {"sections", "index_unit", "encoding", "index_initial"}
+
+    def self_attrs_read(fi_):
+        out_ = set()
+        for sub in walk_shallow(fi_.node):
+            if isinstance(sub, ast.Attribute) and isinstance(sub.value, ast.Name) and sub.value.id == "self" and isinstance(sub.ctx, ast.Load):
+                out_.add(sub.attr)
+            if isinstance(sub, ast.Call) and isinstance(sub.func, ast.Attribute) and sub.func.attr in ("get", "__getitem__", "pop") \
+                    and ast.unparse(sub.func.value) == "self.__dict__" and sub.args and isinstance(sub.args[0], ast.Constant):
+                out_.add(sub.args[0].value)
+            if isinstance(sub, ast.Subscript) and ast.unparse(sub.value) == "self.__dict__" and isinstance(sub.slice, ast.Constant) \
+                    and isinstance(sub.ctx, ast.Load):
+                out_.add(sub.slice.value)
+        return out_
+    for m in sorted(set(VIEWS) | set(MUTATORS)):
+        fi = cls.methods.get(m)
+        if fi is None:
+            continue
+        extra = {a for a in self_attrs_read(fi) if a not in KNOWN and not any(a in c.methods for c in cls.mro())
+                 and not a.startswith("__")}
+        if extra:
+            n += 1
+            ctx.bad("LF.VIEWS", "%s.%s#extra-state(%s)" % (LF, m, sorted(extra)[0]), fi, fi.node,
+                    "%s consults the instance attribute %s, which is not part of a LASFile's state today: a table or cache kept next to "
+                    "the curve list goes stale when curves are renamed, moved or edited in place" % (m, sorted(extra)))
+    # `data` is rebuilt from the curves on every access: each return value is the stack of [c.data for c in self.curves]
+    fd = cls.methods.get("data")
+    if fd is not None:
+        for r_ in [x for x in walk_shallow(fd.node) if isinstance(x, ast.Return) and x.value is not None]:
+            txt = ast.unparse(r_.value)
+            built = ("self.curves" in txt and ".data" in txt) or any(
+                isinstance(x, ast.Name) and any(isinstance(a_, ast.Assign) and any(isinstance(t_, ast.Name) and t_.id == x.id for t_ in a_.targets)
+                                                and "self.curves" in ast.unparse(a_.value) and ".data" in ast.unparse(a_.value)
+                                                for a_ in walk_shallow(fd.node)) for x in ast.walk(r_.value)) and any(
+                isinstance(c_, ast.Call) and ast.unparse(c_.func).split(".")[-1] in ("vstack", "column_stack", "stack", "array", "asarray", "hstack")
+                for c_ in ast.walk(r_.value))
+            n += 1
+            ctx.check(built, "LF.VIEWS", "%s.data#return" % LF, fd, r_, "data is stacked from [c.data for c in self.curves] (column i = curve i)",
+                      "LASFile.data can return `%s`, which is not built from the curve list in its current order: after curves are moved, "
+                      "replaced or share one block, column i is no longer curve i" % txt[:60])
     ctx.floor("LF.VIEWS", 10)
 
 
@@ -187,6 +229,19 @@ def rule_route(ctx):
                   "truncation is decided by `truncate` alone",
                   ("truncation also depends on `%s`: with no curves (or whatever else is tested) the surplus columns become new curves "
                    "although truncate=True" % unparse(bad_t[0].test)) if bad_t else "set_data no longer honours `truncate`")
+    # (g) set_data: the renaming loop visits every curve (names shorter than the curve list are padded, not cut off by zip())
+    fi = cls.methods.get("set_data")
+    if fi is not None:
+        loops_ = [l_ for l_ in ast.walk(fi.node) if isinstance(l_, ast.For) and any(
+            isinstance(a_, ast.Assign) and any(isinstance(t_, ast.Attribute) and t_.attr == "mnemonic" for t_ in a_.targets) for a_ in ast.walk(l_))]
+        for l_ in loops_:
+            it = ast.unparse(l_.iter)
+            whole = it in ("self.curves", "enumerate(self.curves)", "range(len(self.curves))") or (
+                it.startswith("enumerate(self.curves") or it.startswith("zip(self.curves, names") and False)
+            ctx.check(whole, "LF.ROUTE", LF + ".set_data#rename-all", fi, l_,
+                      "every curve is (re)named from the padded names list",
+                      "the renaming loop iterates `%s`: it stops with the shorter sequence, so curves beyond the given names keep their old "
+                      "names instead of becoming blank/UNKNOWN as the list model says" % it[:50])
     ctx.floor("LF.ROUTE", 12)
 
 
@@ -436,6 +491,19 @@ def rule_pu_channel(ctx):
                           "the string channel wraps `%s` (built with %s) instead of the caller's text: str.splitlines() also "
                           "breaks on form feed, U+0085, U+2028 ..., so the same text gives different results as a string and "
                           "as a file" % (unparse(c.args[0]), sorted(extra) or "an expression"))
+    # the file name handed to open_with_codecs is the caller's text (its first line), not a tidied-up version of it
+    for node in cfg.nodes:
+        if node.ast is None or node.kind != "stmt":
+            continue
+        for c in walk_expr_shallow(node.ast):
+            if isinstance(c, ast.Call) and ast.unparse(c.func).endswith("open_with_codecs") and c.args:
+                atoms = prov.atoms(c.args[0], node.id)
+                cn = {a[1] for a in atoms if a[0] == "callname"} - {"splitlines", "str", "fspath", "check_for_path_obj", "split"}
+                n += 1
+                ctx.check(not cn, "PU.CHANNEL", "reader.open_file#filename", fo, c,
+                          "the name that is opened is the caller's string itself",
+                          "the file name passes through %s before it is opened: a str path and the pathlib.Path of the same file (which is "
+                          "opened as given) can name different files" % sorted(cn))
     if n == 0:
         ctx.bad("PU.CHANNEL", "reader.open_file#string-channel", fo, fo.node, "open_file no longer wraps string content in StringIO")
     # explicit encoding precedence in open_with_codecs
